@@ -140,6 +140,15 @@ fn block(src: &mut String, title: &str, body: &str) {
     src.push_str(&format!("    // {title}\n    {{\n{body}    }}\n"));
 }
 
+/// a module / trait without methods: the mock API is still reachable under its name, and the mock object still implements the trait
+fn empty_checks(api: &str, src: &mut String, run: &mut String) {
+    let _ = src;
+    run.push_str(&format!("    {{ use {api} as _; }}\n"));
+    run.push_str(
+        "    {\n        struct Probe<T>(::core::marker::PhantomData<T>);\n        trait Fallback { fn has(&self) -> bool { false } }\n        impl<T> Fallback for Probe<T> {}\n        impl<T: TheTrait> Probe<T> { fn has(&self) -> bool { true } }\n        if !Probe::<Unimock>(::core::marker::PhantomData).has() { fails.push(\"`Unimock: TheTrait` does not hold for a mockable module / trait without methods\".to_string()); }\n    }\n",
+    );
+}
+
 pub fn gen_case(t: &mut Tape) -> Case {
     let kind = t.weighted(&[4, 3, 2]); // fn, mod, trait
     let mut src = String::from(
@@ -236,8 +245,9 @@ pub fn gen_case(t: &mut Tape) -> Case {
         1 => {
             let no_deps = t.chance(1, 5);
             let pool: Vec<u8> = if no_deps { vec![2] } else { vec![0, 1] };
-            let n = t.range(1, 4);
-            let names = crate::prog::member_names(t, n);
+            // (a module may have no visible fn at all: the trait, its mock API module and `Unimock: TheTrait` still exist)
+            let n = if t.chance(1, 8) { 0 } else { t.range(1, 4) };
+            let names = crate::prog::member_names(t, n.max(1));
             let mut fns: Vec<F> = vec![];
             for i in 0..n {
                 let f = if i > 0 && t.chance(1, 2) {
@@ -261,6 +271,11 @@ pub fn gen_case(t: &mut Tape) -> Case {
                 };
                 src.push_str(&format!("    {cfg}{}\n", f.render("pub ").replace('\n', "\n    ")));
             }
+            if n == 0 {
+                src.push_str("    fn private_helper() -> u32 { 1 }\n    pub struct NotAFn;\n");
+                empty_checks("m::TheMock", &mut src, &mut run);
+                classes.push("empty_module");
+            }
             src.push_str("}\n");
             let same = fns.windows(2).any(|w| w[0].params.iter().map(|p| p.vt).collect::<Vec<_>>() == w[1].params.iter().map(|p| p.vt).collect::<Vec<_>>() && w[0].is_async == w[1].is_async);
             if same {
@@ -274,8 +289,8 @@ pub fn gen_case(t: &mut Tape) -> Case {
             summary = format!("#[{mac}(pub TheTrait, mock_api = TheMock{nd}{exp})] mod m {{ {} }}", fns.iter().map(|f| f.render("pub ").lines().next().unwrap_or("").to_string()).collect::<Vec<_>>().join(" "));
         }
         _ => {
-            let n = t.range(1, 3);
-            let names = crate::prog::member_names(t, n);
+            let n = if t.chance(1, 8) { 0 } else { t.range(1, 3) };
+            let names = crate::prog::member_names(t, n.max(1));
             let mut sigs = vec![];
             let mut fns: Vec<F> = vec![];
             for i in 0..n {
@@ -296,6 +311,10 @@ pub fn gen_case(t: &mut Tape) -> Case {
             src.push_str(&format!("/*GEN*/ #[::entrait::entrait_export({head}mock_api = TheMock)]\n{at}pub trait TheTrait {{\n    {}\n}}\n", sigs.join("\n    ")));
             for f in &fns {
                 checks(f, &format!("TheMock::{}", f.name), "", false, &mut run, &mut classes, &mut nontrivial);
+            }
+            if n == 0 {
+                empty_checks("self::TheMock", &mut src, &mut run);
+                classes.push("empty_trait");
             }
             classes.push("trait");
             summary = format!("#[::entrait::entrait_export({head}mock_api = TheMock)] trait TheTrait {{ {} }}", sigs.join(" "));
@@ -368,7 +387,7 @@ pub fn run(ctx: &mut Ctx) {
         let i: usize = id[1..].parse().unwrap_or(0);
         let first = d.first().map(|x| x.rendered.clone()).unwrap_or_default();
         // (a): the API must be reachable under exactly the requested name
-        if d.iter().any(|x| (x.code == "E0425" || x.code == "E0433" || x.code == "E0599" || x.code == "E0412") && x.message.contains("TheMock")) {
+        if d.iter().any(|x| (x.code == "E0425" || x.code == "E0433" || x.code == "E0599" || x.code == "E0412" || x.code == "E0432") && x.message.contains("TheMock")) {
             ctx.count_eval();
             ctx.violation(
                 &format!("the mock API is not reachable under the requested `mock_api` name: {} -- in {}", d.first().map(|x| x.message.clone()).unwrap_or_default(), cases[i].summary),
